@@ -552,10 +552,8 @@ impl MDL {
                                         MDL::read_single3(&mut cursor).ok()?;
                                 }
                                 _ => {
-                                    panic!(
-                                        "Unexpected vertex type for position: {:#?}",
-                                        element.vertex_type
-                                    );
+                                    // not a type this usage is stored with
+                                    return None;
                                 }
                             },
                             VertexUsage::BlendWeights => match element.vertex_type {
@@ -577,10 +575,8 @@ impl MDL {
                                     ];
                                 }
                                 _ => {
-                                    panic!(
-                                        "Unexpected vertex type for blendweight: {:#?}",
-                                        element.vertex_type
-                                    );
+                                    // not a type this usage is stored with
+                                    return None;
                                 }
                             },
                             VertexUsage::BlendIndices => match element.vertex_type {
@@ -598,10 +594,8 @@ impl MDL {
                                     ];
                                 }
                                 _ => {
-                                    panic!(
-                                        "Unexpected vertex type for blendindice: {:#?}",
-                                        element.vertex_type
-                                    );
+                                    // not a type this usage is stored with
+                                    return None;
                                 }
                             },
                             VertexUsage::Normal => match element.vertex_type {
@@ -615,10 +609,8 @@ impl MDL {
                                         MDL::read_single3(&mut cursor).ok()?;
                                 }
                                 _ => {
-                                    panic!(
-                                        "Unexpected vertex type for normal: {:#?}",
-                                        element.vertex_type
-                                    );
+                                    // not a type this usage is stored with
+                                    return None;
                                 }
                             },
                             VertexUsage::UV => match element.vertex_type {
@@ -646,10 +638,8 @@ impl MDL {
                                     vertices[k as usize].uv0.clone_from_slice(&combined[0..2]);
                                 }
                                 _ => {
-                                    panic!(
-                                        "Unexpected vertex type for uv: {:#?}",
-                                        element.vertex_type
-                                    );
+                                    // not a type this usage is stored with
+                                    return None;
                                 }
                             },
                             VertexUsage::BiTangent => match element.vertex_type {
@@ -658,10 +648,8 @@ impl MDL {
                                         MDL::read_tangent(&mut cursor)?;
                                 }
                                 _ => {
-                                    panic!(
-                                        "Unexpected vertex type for bitangent: {:#?}",
-                                        element.vertex_type
-                                    );
+                                    // not a type this usage is stored with
+                                    return None;
                                 }
                             },
                             VertexUsage::Tangent => {
@@ -669,10 +657,8 @@ impl MDL {
                                     // Used for... terrain..?
                                     VertexType::ByteFloat4 => {}
                                     _ => {
-                                        panic!(
-                                            "Unexpected vertex type for tangent: {:#?}",
-                                            element.vertex_type
-                                        );
+                                        // not a type this usage is stored with
+                                    return None;
                                     }
                                 }
                             }
@@ -682,10 +668,8 @@ impl MDL {
                                         MDL::read_byte_float4(&mut cursor)?;
                                 }
                                 _ => {
-                                    panic!(
-                                        "Unexpected vertex type for color: {:#?}",
-                                        element.vertex_type
-                                    );
+                                    // not a type this usage is stored with
+                                    return None;
                                 }
                             },
                         }
